@@ -19,18 +19,16 @@ def alloc_blocks(n):
     try:
         fcntl.flock(fd, fcntl.LOCK_EX)
         raw = os.read(fd, 32).decode().strip()
-        cur = int(raw) if raw.isdigit() else (os.getpid() * 7919) % 10000
+        cur = int(raw) if raw.isdigit() else (os.getpid() * 7919) % 9999
         os.lseek(fd, 0, 0)
         os.ftruncate(fd, 0)
-        os.write(fd, str((cur + n) % 10000).encode())
+        os.write(fd, str((cur + n) % 9999).encode())
     finally:
         fcntl.flock(fd, fcntl.LOCK_UN)
         os.close(fd)
     res = []
     for i in range(n):
-        v = (cur + i) % 10000
-        if v == 0:
-            v = 1          # 127.100.100. is the placeholder block
+        v = 1 + (cur + i) % 9999          # 127.100.100. (v = 0) is the placeholder block
         res.append(b"127.1%02d.1%02d." % (v // 100, v % 100))
     return res
 
